@@ -6,7 +6,9 @@ package gohlslib
 
 import (
 	"fmt"
+	"os"
 	"strings"
+	"testing/synctest"
 
 	"github.com/bluenviron/gohlslib/v2/internal/zzverif/vh"
 	"github.com/bluenviron/gohlslib/v2/internal/zzverif/vsched"
@@ -14,8 +16,106 @@ import (
 
 func init() {
 	verifProps["C07"] = vh.Prop{
-		List: func(tier string) []vh.Scenario { return msListScenarios(c07Scens(tier)) },
-		Run:  func(c *vh.Ctx) { runMuxSched(c, c07Scens(c.Tier), c07Check) },
+		List: func(tier string) []vh.Scenario {
+			return append(msListScenarios(c07Scens(tier)), e1List(c07FaultScens(tier))...)
+		},
+		Run: func(c *vh.Ctx) {
+			if strings.HasPrefix(c.Scenario, "C07/") {
+				e1Run(c, c07FaultScens(c.Tier)) // sequential: Close after a Write that failed inside a rotation
+				return
+			}
+			runMuxSched(c, c07Scens(c.Tier), c07Check)
+		},
+	}
+	e1Bubble["C07"] = true
+	e1Hooks["C07"] = func(r *e1run) { r.finalHook = c07CloseAfterFault }
+}
+
+// c07FaultScens: another point of the muxer's life at which Close may be called - after a Write that failed in the middle
+// of a segment rotation (the file of the next segment could not be created), at every rotation index.
+func c07FaultScens(tier string) []e1Scen {
+	var out []e1Scen
+	nrot := 6
+	if tier == "thorough" {
+		nrot = 14
+	}
+	for _, variant := range []string{"mpegts", "fmp4", "ll"} {
+		for _, tracks := range [][]string{{"h264"}, {"h264", "aac44"}} {
+			cfg := mcfg(variant, true, 3, tracks...)
+			if variant == "ll" {
+				cfg.SegCount = 7
+			}
+			word := []sym{{T: 0, D: "q", K: "R"}, {T: 0, D: "q", K: "n"}, {T: 0, D: "q", K: "n"}, {T: 0, D: "q", K: "n"}}
+			for fa := 1; fa <= nrot; fa++ {
+				// the word stops right after the failed write: Close follows
+				out = append(out, e1Scen{Prop: "C07", Cfg: cfg, Alpha: word, Mode: "fault", Len: 4*fa + 1, FaultAt: fa, Name: fmt.Sprintf("close-after-rotation-fault-%d", fa)})
+				// ... or after two more writes
+				out = append(out, e1Scen{Prop: "C07", Cfg: cfg, Alpha: word, Mode: "fault", Len: 4*fa + 3, FaultAt: fa, Name: fmt.Sprintf("close-after-rotation-fault-%d+2", fa)})
+			}
+		}
+	}
+	return out
+}
+
+// c07CloseAfterFault is the final step of a fault word: a request blocks inside the muxer (Low-Latency), Close is called,
+// and the clauses of C07 are checked sequentially.
+func c07CloseAfterFault(r *e1run) {
+	m := r.mi.m
+	add := func(sig, format string, a ...any) {
+		r.add("C07", sig, format+"; ops %s", append(a, r.opsString())...)
+	}
+	// a blocking reload far enough ahead to wait (only when the leading stream can serve playlists at all)
+	var pending *respRec
+	pendingDone := false
+	havePending := false
+	if r.cfg.Variant == "ll" && m.leadingStream.hasContent() && m.leadingStream.nextSegment != nil {
+		path := fmt.Sprintf("%s?_HLS_msn=%d", mediaPlaylistPath(m.leadingStream.id), m.leadingStream.nextSegmentID+1)
+		havePending = true
+		go func() {
+			pending = r.safeGet(path)
+			pendingDone = true
+		}()
+		synctest.Wait()
+		if pendingDone {
+			havePending = false // answered at once: nothing was pending
+		}
+	}
+	func() {
+		defer func() {
+			if p := recover(); p != nil {
+				add("close-panics", "Close panics after a Write that failed in a segment rotation: %v", p)
+			}
+		}()
+		r.closed = true
+		m.Close()
+	}()
+	if !m.mutex.TryLock() {
+		add("lock-leak", "the muxer mutex is still held after Close returned")
+		return
+	}
+	m.mutex.Unlock()
+	if havePending {
+		synctest.Wait()
+		if !pendingDone {
+			add("request-stuck-after-close/BR", "a blocking reload that was pending when Close was called never completes")
+		} else if pending.Status == 200 {
+			add("waiter-got-200-after-close/BR", "a blocking reload that was pending when Close was called completed with 200")
+		}
+	}
+	for _, path := range []string{"index.m3u8", mediaPlaylistPath(m.leadingStream.id)} {
+		rr, blocked := r.probe(path)
+		if blocked {
+			add("request-after-close-blocks", "request %s issued after Close blocks", path)
+		} else if rr.Status == 200 {
+			add("request-after-close-200", "request %s issued after Close is answered with 200", path)
+		}
+	}
+	if ents, err := os.ReadDir(r.mi.dir); err == nil && len(ents) > 0 {
+		var names []string
+		for _, e := range ents {
+			names = append(names, e.Name())
+		}
+		add("files-left", "files left in Directory after Close: %s", canon(strings.Join(names, " ")))
 	}
 }
 
